@@ -41,6 +41,11 @@ def gen_program(fn, n):
         decl = 'var ' if fn.endswith('binding') else 'var r; var ' + ','.join('a%d' % i for i in range(n)) + '; '
         return ('var live = 7; var src = []; for (var i = 0; i < %d; i++) src.push(i); %s[' % (n + 3, decl) + ','.join('a%d' % i for i in range(n)) +
                 ', ...r] = src; a%d + "," + r.length + "," + live' % (n - 1), '%d,3,7' % (n - 1))
+    if fn.startswith('add_break_jump') or fn.startswith('add_continue_jump'):
+        kw = 'break' if 'break' in fn else 'continue'
+        src = ("let log = ''; " + "try { " * n + "for (let i = 0; i < 2; i++) { try { %s; } finally { log += 'f'; } } throw 1; " % kw +
+               ''.join("} catch (e) { log += 'c%d'; } " % i for i in range(n)) + "log")
+        return (src, 'fc0' if kw == 'break' else 'ffc0')
     return None
 
 
@@ -48,11 +53,11 @@ def targets(ex):
     out = []
     mir = ex.mir
     for name, (s, e) in mir.fn_index.items():
-        if 'src/compiler/' not in name or '{closure' in name or 'builder.rs' in name:
-            continue
+        if 'src/compiler/' not in name or 'builder.rs' in name:
+            continue       # closures are included: `.map(|ctx| ctx.try_depth as u8)` narrows inside one
         sites = [ln.strip() for ln in mir.lines[s:e] if re.search(r'= (copy|move) (_\d+) as (u8|u16) \(IntToInt\)', ln)]
         if sites:
-            out.append((name, name.split('>::')[-1], len(sites)))
+            out.append((name, name.split('>::')[-1].replace('::{closure#', '{closure#'), len(sites)))
     return out
 
 
@@ -77,6 +82,9 @@ def run_function(name, short, unwind=6):
     # shape inspection helpers of the AST: an arbitrary expression comes back (their loops are over the nesting depth of wrappers)
     ex.havoc(r'^Expression::without_type_wrappers$')
     ex.havoc(r'^count_function_bindings$|^hoist::|^collect_|^BytecodeBuilder::')
+    # anything else without a model (slice::get_mut on an abstract vector, ...) returns an arbitrary value
+    ex.auto_havoc = True
+    ex.execute_real = [re.compile(r'.')]       # ...but crate functions that are not abstracted above are still executed for real
     st = State()
     fn = ex.mir.get(name)
     args = [ex.fresh(st, ty, '$arg%d' % i) for i, (a, ty) in enumerate(fn.args)]
@@ -127,7 +135,7 @@ def check(rep, cross, pid):
                 r, m = ex.check_sat_pc(e.st.pc, [])
                 rep.obligation(what0 + ': no arithmetic panic in size computations', 'sat', 'any construct size', 0.0, detail=e.detail[:100])
                 cex = (m, 'arithmetic panic: ' + e.detail[:80])
-            elif e.value.discr == 0:
+            elif not isinstance(e.value, EnumV) or e.value.discr == 0:
                 for ev in e.st.events:
                     if ev[0] != 'cast':
                         continue
